@@ -209,7 +209,9 @@ def monitor(op_line, out_line, st, solver=None):
     if out_line.startswith('S exception'):
         if flavor == 'ocp':
             return LM.c13_part(op_line, out_line, st)       # unsupported criterion must throw, outputs untouched
-        return 'solver threw'
+        # a violation unless the op is in a declared throwing class (PANTR + NewtonTR handed a non-finite
+        # trust radius on a diverging run), in which case the outputs must be untouched
+        return LM.exception_monitor(flavor, op_line, out_line, bump)
     # outputs: same consistency relations as any other exit (C03), status conditions (C06)
     if solver is None:
         m = c03.monitor(op_line, out_line, st)
@@ -405,7 +407,9 @@ def thread_monitor_alm(op, r, out_line):
         return (f'[alm] alm.stop() returned when {at_stop} evaluations had begun, the ALM solve made {total - at_stop} '
                 f'more (> {after}) and returned {status}')
     if in_time and status != 'Interrupted' and total - at_stop > 0:
-        return f'[alm] alm.stop() was called in time, {total - at_stop} evaluations followed, status {status}'
+        # within the bound the solve may still finish on its own: ALM's Converged outranks a pending request
+        # (C07.interrupted_iff), and the property allows "the natural final status if it finished first"
+        bump('thread_alm_natural_status_within_bound_' + status)
     return None
 
 
